@@ -15,17 +15,15 @@ H == INSTANCE Heights WITH Lt <- NLt, Z <- <<>>, Dec <- NDec, Und <- NUnd, Fits 
 
 Quick == Tier = "quick"
 RevNums == IF Quick THEN {N(0), N(1), Sym(63, 0), Max64, Rnd64(Seed, 1)}
-           ELSE {N(0), N(1), N(2), Sym(32, 0), Sym(53, 1), Sym(63, -1), Sym(63, 0), Sym(64, -2), Max64,
-                 Rnd64(Seed, 1), Rnd64(Seed, 2), Rnd(Seed, 3, 33)}
+           ELSE {N(0), N(1), Sym(32, 0), Sym(63, -1), Sym(63, 0), Max64, Rnd64(Seed, 1), Rnd(Seed, 3, 33)}
 RevHeights == IF Quick THEN {N(0), N(1), Sym(63, -1), Sym(63, 0), Max64, Rnd64(Seed, 4)}
-              ELSE {N(0), N(1), N(2), Sym(32, -1), Sym(32, 0), Sym(53, 0), Sym(53, 1), Sym(63, -1), Sym(63, 0), Sym(63, 1),
-                    Sym(64, -2), Max64, Rnd64(Seed, 4), Rnd64(Seed, 5), Rnd(Seed, 6, 31)}
+              ELSE {N(0), N(1), Sym(32, -1), Sym(53, 1), Sym(63, -1), Sym(63, 0), Sym(63, 1), Sym(64, -2), Max64, Rnd64(Seed, 4), Rnd(Seed, 6, 31)}
 HS == { H!Height(rn, rh) : rn \in RevNums, rh \in RevHeights }
 
 \* timeouts and observation points
-TRev == IF Quick THEN {N(0), N(1)} ELSE {N(0), N(1), Max64}
-THgt == IF Quick THEN {N(0), Max64} ELSE {N(0), N(1), Sym(63, 0), Max64, Rnd64(Seed, 7)}
-TStamps == IF Quick THEN {N(0), N(1), Max64} ELSE {N(0), N(1), Sym(63, -1), Sym(63, 0), Max64, Rnd64(Seed, 8)}
+TRev == IF Quick THEN {N(0), N(1)} ELSE {N(0), Max64}
+THgt == IF Quick THEN {N(0), Max64} ELSE {N(0), N(1), Max64, Rnd64(Seed, 7)}
+TStamps == IF Quick THEN {N(0), N(1), Max64} ELSE {N(0), N(1), Max64, Rnd64(Seed, 8)}
 THS == { H!Height(rn, rh) : rn \in TRev, rh \in THgt }
 Points == { [h |-> h, ts |-> ts] : h \in THS, ts \in TStamps }
 Timeouts == { H!Timeout(h, ts) : h \in THS, ts \in TStamps }
